@@ -66,10 +66,7 @@ def judge_accounting(styles, cb, sb, use_style, pool):
     ids = [p.id for p in ph]
     if len(set(ids)) != len(ids) or set(ids) & {c.id for c in cvrs}:
         out.append(("C08|accounting|identifiers", f"phantom identifiers not unique / collide with real ones: {ids}"))
-    if any(not str(i).startswith("phantom-1-") for i in ids):
-        out.append(("C08|accounting|prefix", f"phantom identifiers {ids} do not carry the requested prefix"))
-    if any((p.pool, p.tally_pool) != (pool, "PH" if pool else None) for p in ph):
-        out.append(("C08|accounting|pool-label", "phantoms do not carry the requested pool labelling"))
+    # (the requested prefix and pool labelling are documented parameters, but no clause of C08 speaks about them: not judged)
     if nph != len(ph):
         out.append(("C08|accounting|count-returned", f"returned count {nph} but {len(ph)} records were appended"))
     eff = {c: (max_cards if (cards[c] is None or not use_style) else cards[c]) for c in IDS}
